@@ -1,6 +1,7 @@
 //@inject src/vdaf/poplar1.rs
-//@harness pop_vs_alloc_one | bounded(debug) | single case
-//@harness pop_vs_alloc_one_nostub | bounded(debug) | single case, no capacity stub
+// NOT REGISTERED: CBMC does not finish on Poplar1VerifierState::decode_with_param (the collect::<Result<Vec<_>,_>>() loop) even for
+// one concrete 6-byte input (600 s), with or without the capacity stub - see DESIGN.md M40.  Kept as the record of the
+// allocation-budget contract (Vec::with_capacity contract stub), which works on other decoders.
 //@harness pop_verifier_state_alloc_budget | bounded(inputs of 6 and 14 bytes; length header in {0, 1, 2, 2^20, 2^24, 2^32-1}; payload bytes symbolic) | Poplar1VerifierState::decode_with_param: every explicit capacity request (Vec::with_capacity) made while decoding is bounded by the bytes actually supplied (allocation proportional to the input, never to a length header); the decoder returns Ok or Err, no panic
 // Allocation contract: Vec::with_capacity is replaced by its contract stub: requires cap * size_of::<T>() <= BUDGET (a ghost
 // set by the harness to a constant multiple of the input length), ensures an empty vector (capacity is only a hint).
@@ -53,15 +54,4 @@ mod verif_c08_alloc {
         }
     }
 
-    #[kani::proof]
-    #[kani::unwind(20)]
-    #[kani::stub(<crate::fp::FP64 as crate::fp::FieldOps<u64>>::mul, crate::verif_common::mul64_id_stub)]
-    #[kani::stub(alloc::vec::Vec::with_capacity, with_capacity_contract)]
-    #[kani::stub(alloc::fmt::format, crate::verif_common::format_stub)]
-    fn pop_vs_alloc_one() { budget_case::<6>(u32::MAX) }
-    #[kani::proof]
-    #[kani::unwind(20)]
-    #[kani::stub(<crate::fp::FP64 as crate::fp::FieldOps<u64>>::mul, crate::verif_common::mul64_id_stub)]
-    #[kani::stub(alloc::fmt::format, crate::verif_common::format_stub)]
-    fn pop_vs_alloc_one_nostub() { budget_case::<6>(u32::MAX) }
 }
